@@ -12,13 +12,21 @@
                           (`returns_fresh_observe`) any observation of the instance / class.
   * `retained_fresh_observe` — input side: if every site is copied, no script started from the caller's
                           arguments changes any observation of what the operation built (the new instance's payload).
-  * `tables_ok`         — every row of today's table is safe, out of the statement's scope, or a listed finding.
-  * `C19_statement`     — the full statement (false today: `C19_statement_fails_today`);
-    `C19_partial`       — the statement for declarations that avoid exactly the listed finding rows;
+  * `setattr_separation` — assignment: the stored value AND the rest of the instance are out of the caller's reach.
+  * `tables_ok`         — every row of today's table is safe, out of the statement's scope, or a listed finding
+                          (none is listed today: `only_listed_rows_unsafe_today`).
+  * `C19_statement`     — the full statement over ALL sites (also sites today's table has no row for: not claimed);
+    `C19_partial` / `C19_today` — the statement for declarations all of whose sites are admitted (known to the table,
+                          in scope, not a listed finding row); for a multi-field wrapper: the sites of ALL its options.
     `unsafe_rows_have_counterexamples` — for EVERY unsafe in-scope row of the table a kernel-checked history
-                          (operation, one poke, observation differs); `anyOf_misfit_hands_out_stored` is one of them
-                          written out; `oneOf_keeps_a_copy_today`: a former one, now positive.  `fixed_rows_*`, `fast_serialization_fresh_today`: the rows repaired by
-                          typedpy commits 5e8a8ad / d7f6fe4 now carry positive theorems.
+                          (operation, one poke, observation differs): none today, any that returns gets one.
+  * `fixed_rows_*`, `fast_serialization_fresh_today`, `oneOf_keeps_a_copy_today`, `oneOf_allOf_fresh_today`,
+    `anyOf_serialize_picks_the_fitting_option_today`, `oneOf_copies_tuple_elements_today` — the rows repaired in
+                          typedpy (5e8a8ad, d7f6fe4, c0c3c23, 89fd84a, 2fb1f4d, ab026bd) carry positive theorems.
+  * `immutable_owner_holds`, `immutable_class_holds` — immutable owners under ANY rows of the fields below.
+  * `firstFit_spec`, `fixed_pick_spec`, `transfer_sites` — the option choice of multi-field wrappers; the walk consults
+                          the table exactly at `sitesOf`.
+  * `api_covered`, `api_rows_probed`, `api_ops_in_table` — every public entry point of typedpy is accounted for.
 -/
 import TypedpyModel.Lemmas.Alias
 import TypedpyModel.Spec.AliasScope
@@ -471,6 +479,7 @@ def witnessItem : Cat → Shape
   | .inline => .keyed .inline [("x", .scalar .number)]
   | .wrap => .wrap .anyOf (.coll .array (.scalar .number))
   | .enum => .scalar .enum
+  | .tupl => .coll .tuple (.coll .array (.scalar .number))
   | _ => .scalar .scalar
 
 def witnessShape (k : Kind) (c : Cat) : Shape :=
@@ -572,32 +581,46 @@ theorem oneOf_allOf_fresh_today :
     HoldsFor Generated.aliasing .setattr (.wrapN .allOf .firstFit [.coll .map (.coll .array (.scalar .number))]) :=
   ⟨C19_today _ _ (by decide +kernel), C19_today _ _ (by decide +kernel), C19_today _ _ (by decide +kernel)⟩
 
-/-- an open finding as an explicit history: `AnyOf[Array[Integer], Enum(values=…)]`; `<field>.serialize` of the stored
-    list (cell 1, which the instance, cell 0, refers to) hands the value to the Enum option, which returns it: the
-    "document" IS cell 1, and emptying it empties the instance's field -/
-def misfitShape : Shape := .wrapN .anyOf (.fixed 1) [.coll .array (.scalar .number), .scalar .enum]
+-- BEGIN finding:misfit
+/-- a former explicit counterexample, now positive: `AnyOf[Array[Integer], Enum(values=…)]` — `AnyOf.serialize` hands the
+    stored list (cell 1) to the option that takes it (the Array option), and the document is a new list -/
+def misfitShape : Shape := .wrapN .anyOf .firstFit [.coll .array (.scalar .number), .scalar .enum]
 
-theorem anyOf_misfit_hands_out_stored :
+theorem anyOf_serialize_picks_the_fitting_option_today :
     let out := transfer (modeOf Generated.aliasing .fieldSerialize) 5 misfitShape witnessHeap (.ref 1)
-    out.2 = some (.ref 1) ∧
-      (runScript out.1 [1] [.write 1 ⟨"list", []⟩]).1.cells 1 ≠ witnessHeap.cells 1 ∧
-      (observeN 3 (runScript out.1 [1] [.write 1 ⟨"list", []⟩]).1 (.ref 0)).beq (observeN 3 out.1 (.ref 0)) = false := by
-  refine ⟨by decide +kernel, by decide +kernel, by decide +kernel⟩
+    ∃ doc, out.2 = some doc ∧ (reachList 4 out.1 doc).contains 1 = false ∧
+      (observeN 3 (runScript out.1 (roots doc) [.write 2 ⟨"list", []⟩]).1 (.ref 0)).beq (observeN 3 out.1 (.ref 0)) = true := by
+  refine ⟨.ref 2, by decide +kernel, by decide +kernel, by decide +kernel⟩
+-- END finding:misfit
+
+-- BEGIN finding:tupl
+/-- cell 0: kwargs {f: cell 1}; cell 1: the tuple (cell 2, 2); cell 2: the caller's list inside the tuple -/
+def tupleHeap : Heap :=
+  Heap.ofList [⟨"dict", [("f", .ref 1)]⟩, ⟨"tuple", [("0", .ref 2), ("1", .atom 2)]⟩, ⟨"list", [("0", .atom 4)]⟩]
+
+def tupleShape : Shape :=
+  .keyed .root [("f", .wrapN .oneOf .firstFit [.keyed .tuplePos [("0", .coll .array (.scalar .string)), ("1", .scalar .number)],
+                                               .scalar .string])]
+
+/-- a former explicit counterexample, now positive: `OneOf[Tuple[Array[String], Integer], String]` given a tuple keeps a
+    private deep copy — the caller's list inside the tuple (cell 2) is not the instance's, emptying it changes nothing -/
+theorem oneOf_copies_tuple_elements_today :
+    let out := transfer (modeOf Generated.aliasing .construct) 5 tupleShape tupleHeap (.ref 0)
+    ∃ inst, out.2 = some inst ∧ (reachList 5 out.1 inst).all (fun a => decide (3 ≤ a)) = true ∧
+      (observeN 4 (runScript out.1 [0] [.write 2 ⟨"list", []⟩]).1 inst).beq (observeN 4 out.1 inst) = true := by
+  decide +kernel
+-- END finding:tupl
 
 /-- the unsafe in-scope rows of today's table are exactly the listed ones -/
 theorem only_listed_rows_unsafe_today :
-    (Generated.aliasing.filter fun r => !r.safe && r.inScope).map (fun r => (r.op, r.kind, r.cat)) = knownRows := by
+    ((Generated.aliasing.filter fun r => !r.safe && r.inScope).all (fun r => knownRows.contains (r.op, r.kind, r.cat)) &&
+     knownRows.all (fun k => (Generated.aliasing.filter fun r => !r.safe && r.inScope).any
+       fun r => r.op == k.1 && r.kind == k.2.1 && r.cat == k.2.2)) = true := by
   decide +kernel
 
-/-- the full statement is still false of today's code (the misfit delegation of `AnyOf.serialize`) -/
-theorem C19_statement_fails_today : ¬ C19_statement Generated.aliasing := by
-  intro st
-  have hf := st .fieldSerialize misfitShape (by decide +kernel) 5 witnessHeap (.ref 1) _ _ rfl
-  obtain ⟨hres, hne, _⟩ := anyOf_misfit_hands_out_stored
-  apply hne
-  refine (hf.2 (.ref 1) hres).1 [.write 1 ⟨"list", []⟩] ?_ 1 (by decide)
-  simp only [AdmissibleAll, Admissible, and_true]
-  refine ⟨⟨1, by simp [roots], Reach.refl _⟩, fun k hk => by simp [Cell.kids] at hk⟩
+-- BEGIN statement-fails
+-- (no unsafe in-scope row is left: see `only_listed_rows_unsafe_today`)
+-- END statement-fails
 
 /-- what was the flagship finding now holds: fast serialization (and `<field>.serialize`) of scalar-item
     and untyped collections — Array[Integer], Array[String], untyped Array / Deque / Map, also nested — is
@@ -760,6 +783,37 @@ theorem immutable_owner_today (op : OpK) (hop : op ∈ ownerOps) (s : Shape) :
   have h := owner_rows_copy_today
   rw [List.all_eq_true] at h
   exact (and_true_split (h op hop)).1
+
+/-- what C19 says about constructing / deserializing a whole immutable class from plain caller data -/
+def ImmutableClassHoldsFor (tbl : List AliasRow) (op : OpK) (fs : List (String × Shape)) : Prop :=
+  ∀ (fuel : Nat) (h : Heap) (a : Nat) (h' : Heap) (r : Option Item), PlainItems h (h.cells a).items →
+    transfer (modeOf tbl op) fuel (.keyed .root fs) h (.ref a) = (h', r) →
+    (∀ x, x < h.next → h'.cells x = h.cells x) ∧
+    ∀ inst, r = some inst →
+      (∀ acts, AdmissibleAll h' (roots inst) acts →
+        ∀ x, x < h.next → (runScript h' (roots inst) acts).1.cells x = h.cells x) ∧
+      (ClosedBelow h.next h → ∀ K, (∀ x, x ∈ K → x < h.next) → ∀ acts, AdmissibleAll h' K acts →
+        ∀ n, observeN n (runScript h' K acts).1 inst = observeN n h' inst)
+
+/-- **a whole ImmutableStructure**: for ANY table whose owner row copies and whose top-level site rebuilds — whatever
+    the rows of the fields say — and for EVERY list of declared fields (each behind the owner's copy), constructing the
+    instance from plain data writes nothing of the caller's, and afterwards neither a script from the instance changes
+    the caller's objects nor a script from the caller's objects any observation of the instance -/
+theorem immutable_class_holds (tbl : List AliasRow) (op : OpK) (fs : List (String × Shape)) (ho : allOwned fs = true)
+    (hm : (modeOf tbl op .owner .none).ownerCopies = true) (hroot : modeOf tbl op .root .none = .rebuild) :
+    ImmutableClassHoldsFor tbl op fs := by
+  intro fuel h a h' r pl e
+  have fr := transfer_frame (modeOf tbl op) fuel (.keyed .root fs) h (.ref a) h' r e
+  refine ⟨fr.2, ?_⟩
+  intro inst hr
+  subst hr
+  exact holds_of_fresh_result fr (immutable_class_fresh (modeOf tbl op) fuel fs ho hm hroot h a pl h' inst e)
+
+/-- today's code: the constructor and the Deserializer of every ImmutableStructure class -/
+theorem immutable_class_today (fs : List (String × Shape)) (ho : allOwned fs = true) :
+    ImmutableClassHoldsFor Generated.aliasing .construct fs ∧ ImmutableClassHoldsFor Generated.aliasing .deserialize fs :=
+  ⟨immutable_class_holds _ _ fs ho (by decide +kernel) (by decide +kernel),
+   immutable_class_holds _ _ fs ho (by decide +kernel) (by decide +kernel)⟩
 
 /-- the choice function of a multi-field wrapper picks the FIRST option the value fits -/
 theorem firstFit_spec (h : Heap) (i : Item) : ∀ (opts : List Shape),
